@@ -156,7 +156,7 @@ def rules_C03(ctx):
 
 
 def rules_C16(ctx):
-    return total_for("C16", ctx) + overflow_for("C16", ctx) + [codec.run(ctx), codec.compact_modes(ctx),
+    return total_for("C16", ctx) + overflow_for("C16", ctx) + [codec.run(ctx), codec.compact_modes(ctx), codec.rlp_headers(ctx),
                                                                structural.wf(ctx, marker_generic=False)]
 
 
@@ -313,7 +313,7 @@ PROPS = {
              ["round trip", "reference encodings", "exact value of length / size-hint functions"]),
     "C17": P("C17", "(a) every decoder entry point (serde, rlp, alloy-rlp, fastrlp 0.3/0.4, SCALE fixed+compact, SSZ, "
              "borsh, DER incl. 9 TryFrom impls, postgres, num-bigint, sqlx, diesel, pyo3, bn-rs, byte-slice and string "
-             "parsers: 50 entries) reaches no undischarged panic site in any of 17 (quick) / 70 (thorough) configurations: "
+             "parsers: 50 entries) reaches no undischarged panic site in any of 18 (quick) / 70 (thorough) configurations: "
              "panic-site inventory of the call-graph closure, discharge by interval abstract interpretation, guard "
              "refutation across calls and 25 reviewed rows (R-TOTAL); (b) each canonical decoder constructs its documented "
              "error kinds, and in the three RLP decoders every path to try_from_be_slice passes the leading-zero test "
